@@ -121,6 +121,8 @@ pub struct RunCfg {
     pub budget_per_op: u64,
     /// C04 checkpoints at every Remount op and at the end
     pub checkpoint: bool,
+    /// mount with FsOptions::strict(false)
+    pub lenient_mount: bool,
 }
 
 pub const ALL_FSCK: &[Fk] = &[
@@ -158,6 +160,7 @@ impl RunCfg {
             fsck_kinds: ALL_FSCK.to_vec(),
             budget_per_op: 2_000_000,
             checkpoint: false,
+            lenient_mount: false,
         }
     }
     pub fn wants(&self, a: Aspect) -> bool {
@@ -233,6 +236,8 @@ pub struct Run<'a> {
     /// C14: flush points under observation
     pub crash: bool,
     pub base_image: Option<Store>,
+    /// sector 0 as it was before the first mount (regions: only the status byte of it may ever change)
+    boot_at_start: Vec<u8>,
     pub flush_events: Vec<FlushEvent>,
     /// operations left during which judgement is suspended after Op::FaultNext
     pub fault_hold: u32,
@@ -303,11 +308,15 @@ impl<'a> Run<'a> {
             ro_fsinfo_unusable: false,
             crash: false,
             base_image: None,
+            boot_at_start: Vec::new(),
             flush_events: Vec::new(),
         };
         if let Some(t) = &truth {
             r.model.import(0, &t.root);
             r.trace.hit("foreign_population");
+        }
+        if r.cfg.regions {
+            r.boot_at_start = r.dev.with_store(|s| refdec::rdv(s, 0, 512));
         }
         r.mount().map_err(|v| v.msg)?;
         r.last_dec = r.dev.with_store(|s| refdec::decode(s, refdec::DecodeOpts::default())).ok();
@@ -335,7 +344,7 @@ impl<'a> Run<'a> {
     }
 
     fn mount(&mut self) -> VResult<()> {
-        let mo = MountOpts { access_date: self.vol.access_date, strict: true };
+        let mo = MountOpts { access_date: self.vol.access_date, strict: !self.cfg.lenient_mount };
         if self.cfg.fatcopies || self.cfg.dirty {
             self.mount_image = Some(self.dev.snapshot());
         }
@@ -1950,6 +1959,9 @@ impl<'a> Run<'a> {
             }
         }
         self.after_unmount_checks(free, queried)?;
+        if self.cfg.regions {
+            self.check_canaries()?;
+        }
         self.trace.hit(if by_drop { "remount_by_drop" } else { "remount" });
         self.mount()?;
         if self.cfg.checkpoint {
@@ -2658,6 +2670,13 @@ impl<'a> Run<'a> {
             let tail = self.dev.with_store(|s| refdec::rdv(s, vb, (dl - vb) as usize));
             if let Some(p) = tail.iter().position(|b| *b != vol::CANARY) {
                 return Err(self.viol(Aspect::Regions, format!("byte {} after the declared end of the volume was modified", p)));
+            }
+        }
+        if self.boot_at_start.len() == 512 {
+            let now = self.dev.with_store(|s| refdec::rdv(s, 0, 512));
+            let st = g.status_off() as usize;
+            if let Some(p) = (0..512).find(|i| *i != st && now[*i] != self.boot_at_start[*i]) {
+                return Err(self.viol(Aspect::Regions, format!("byte {} of the boot sector was modified (only the status byte at {} may change)", p, st)));
             }
         }
         if self.vol.gen.is_some() {
